@@ -3,60 +3,46 @@ import MythVerif.Proofs.WsQueueTsoTac
 namespace MythVerif.WsqTso
 open MythVerif.Wsq
 
-set_option maxHeartbeats 4000000 in
 theorem t_wq0 (s s' : St) (p : Pid) : Inv s → s.tpc p = .wq0 → stepT s p = some s' → Inv s' := by
   intro h heq hs
   have hb := h.tbufE p (by simp [heq, mayBuf])
-  cases h
   simp only [stepT, heq, hb, viewTop_nil] at hs
   simp at hs; subst hs
-  simp only [ownerLocked, carry, resetting, ownerFlight] at *
-  tso_finish
+  tso_fastT h p []
 
-set_option maxHeartbeats 4000000 in
 theorem t_wq1 (s s' : St) (p : Pid) (t) : Inv s → s.tpc p = .wq1 t → stepT s p = some s' → Inv s' := by
   intro h heq hs
   have hb := h.tbufE p (by simp [heq, mayBuf])
-  cases h
   simp only [stepT, heq, hb, viewBase_nil] at hs
   split at hs
   all_goals (simp at hs; subst hs)
-  all_goals simp only [ownerLocked, carry, resetting, ownerFlight] at *
-  all_goals tso_finish
+  all_goals tso_fastT h p []
 
-set_option maxHeartbeats 4000000 in
 theorem t_wtl (s s' : St) (p : Pid) : Inv s → s.tpc p = .wtl → stepT s p = some s' → Inv s' := by
   intro h heq hs
   have hb := h.tbufE p (by simp [heq, mayBuf])
   simp only [stepT, heq, hb] at hs
   simp at hs
   split at hs
-  all_goals (simp at hs; subst hs; cases h)
-  all_goals simp only [ownerLocked, carry, resetting, ownerFlight] at *
-  all_goals tso_finish
+  all_goals (simp at hs; subst hs)
+  all_goals tso_fastT h p []
 
-set_option maxHeartbeats 4000000 in
 theorem t_wk1 (s s' : St) (p : Pid) : Inv s → s.tpc p = .wk1 → stepT s p = some s' → Inv s' := by
   intro h heq hs
   have hb := h.tbufE p (by simp [heq, mayBuf])
-  cases h
   simp only [stepT, heq, hb, viewBase_nil] at hs
   simp at hs; subst hs
-  simp only [ownerLocked, carry, resetting, ownerFlight] at *
-  tso_finish
+  tso_fastT h p []
 
-set_option maxHeartbeats 4000000 in
 theorem t_wkf (s s' : St) (p : Pid) (b) : Inv s → s.tpc p = .wkf b → stepT s p = some s' → Inv s' := by
   intro h heq hs
   have hcfg := h.cfg
-  cases h
   simp only [stepT, heq, fenceOk, hcfg, code_wtakeFence] at hs
   split at hs
   · rename_i hb
     simp at hb
     simp at hs; subst hs
-    simp only [ownerLocked, carry, resetting, ownerFlight] at *
-    tso_finish
+    tso_fastT h p [wkf]
   · simp at hs
 
 end MythVerif.WsqTso
